@@ -1169,3 +1169,96 @@ if __name__ == "__main__":
     ps = generate(int(sys.argv[1]), sys.argv[2], sys.argv[3], int(sys.argv[4]), "f")
     for p in ps:
         print(json.dumps(p))
+
+
+# ------------------------------------------------------------------------------------------------ edge profile
+def edge_programs(seed, plat, count, prefix):
+    """Small programs aimed at the places where a value-flow analysis typically goes wrong (independent of the random
+    profiles above, own random stream): a value stored into a narrower variable and read back, the value of a loop
+    counter after the loop, a variable written through a pointer or by a callee between assignment and use."""
+    r = random.Random(seed * 7919 + 13)
+    out = []
+    for n in range(count):
+        name = "%s%04d" % (prefix, n)
+        prog = Prog(name, plat, "edge")
+        shape = r.choice(["trunc", "trunc", "after", "after", "alias", "alias"])
+        prog.funcs.append(None)
+        hidx = 0
+        if shape == "alias" and r.random() < 0.5:
+            # static void h(int *q, int u) { *q = u + k; }
+            h = FnCtx(prog, 2, r, "void")
+            q = h.add_var("q", "ptr", pt="int", param=True)
+            u = h.add_var("u", "int", param=True)
+            body = h.block([h.stmt_expr(h.asg("=", h.mk("deref", a=h.mk("var", v=q, ty="ptr"), ty="int"),
+                                              h.bin("+", h.var(u), h.num(r.choice([0, 1, 2])))))])
+            prog.funcs.append({"name": name + "_h1", "ret": "void", "np": 2, "vars": h.vars, "body": body})
+            hidx = 2
+        c = FnCtx(prog, 1, r, "int")
+        a = c.add_var("a", "int", param=True)
+        ss = []
+        if shape == "trunc":
+            nty = r.choice(["schar", "uchar", "short", "ushort"])
+            nv = c.add_var("n", nty)
+            w = c.add_var("w", r.choice(["int", "int", "long"]))
+            big = r.choice([127, 128, 200, 255, 256, 300, 1000, 32767, 32768, 40000, 65535, 65536, 70000, -1, -128, -129, -200, -32769])
+            src = r.choice(["const", "const", "param", "expr"])
+            if src == "const":
+                e = c.num(big)
+            elif src == "param":
+                e = c.var(a)
+            else:
+                e = c.bin(r.choice(["+", "-", "|"]), c.var(a), c.num(abs(big)))
+            ss.append(c.stmt_expr(c.asg("=", c.var(nv), e)))
+            ss.append(c.stmt_expr(c.asg("=", c.var(w), c.var(nv))))
+            if r.random() < 0.5:
+                k2 = T.conv(plat, big, nty)
+                ss.append(c.mk("if", a=c.bin(r.choice(["==", "<", ">="]), c.var(nv), c.num(r.choice([k2, big, 0]))),
+                               b=c.block([c.stmt_expr(c.asg("=", c.var(w), c.bin("+", c.var(w), c.num(1))))]), c=0))
+            ss.append(c.mk("ret", a=c.bin("+", c.var(w), c.var(nv)) if r.random() < 0.5 else c.var(w)))
+        elif shape == "after":
+            i = c.add_var("i", "int")
+            x = c.add_var("x", "int")
+            k = r.choice([1, 2, 3, 4, 5])
+            ss.append(c.stmt_expr(c.asg("=", c.var(x), c.num(0))))
+            form = r.choice(["for<", "for<=", "for!=", "step2", "down", "while", "forbreak"])
+            body = [c.stmt_expr(c.asg("=", c.var(x), c.bin("+", c.var(x), c.var(i) if r.random() < 0.5 else c.num(2))))]
+            if form == "forbreak":
+                body.append(c.mk("if", a=c.bin("==", c.var(a), c.var(i)), b=c.block([c.mk("break")]), c=0))
+            if form in ("for<", "forbreak"):
+                loop = c.mk("for", a=c.asg("=", c.var(i), c.num(0)), b=c.bin("<", c.var(i), c.num(k)), c=c.inc("++", r.random() < 0.5, c.var(i)), d=c.block(body))
+            elif form == "for<=":
+                loop = c.mk("for", a=c.asg("=", c.var(i), c.num(0)), b=c.bin("<=", c.var(i), c.num(k)), c=c.inc("++", False, c.var(i)), d=c.block(body))
+            elif form == "for!=":
+                loop = c.mk("for", a=c.asg("=", c.var(i), c.num(0)), b=c.bin("!=", c.var(i), c.num(k)), c=c.inc("++", True, c.var(i)), d=c.block(body))
+            elif form == "step2":
+                loop = c.mk("for", a=c.asg("=", c.var(i), c.num(0)), b=c.bin("<", c.var(i), c.num(k)), c=c.asg("+=", c.var(i), c.num(2)), d=c.block(body))
+            elif form == "down":
+                loop = c.mk("for", a=c.asg("=", c.var(i), c.num(k)), b=c.bin(">", c.var(i), c.num(0)), c=c.inc("--", False, c.var(i)), d=c.block(body))
+            else:
+                ss.append(c.stmt_expr(c.asg("=", c.var(i), c.num(0))))
+                loop = c.mk("while", a=c.bin("<", c.var(i), c.num(k)), b=c.block(body + [c.stmt_expr(c.inc("++", False, c.var(i)))]))
+            ss.append(loop)
+            ss.append(c.stmt_expr(c.asg("=", c.var(x), c.bin("+", c.var(x), c.var(i)))))
+            ss.append(c.mk("ret", a=c.var(i) if r.random() < 0.5 else c.bin("*", c.var(x), c.num(2))))
+        else:
+            x = c.add_var("x", "int")
+            y = c.add_var("y", "int")
+            p = c.add_var("p", "ptr", pt="int")
+            k = r.choice([0, 1, 5, 7])
+            ss.append(c.stmt_expr(c.asg("=", c.var(x), c.num(k))))
+            ss.append(c.stmt_expr(c.asg("=", c.var(y), c.num(k + 1))))
+            tgt = r.choice([x, x, y])
+            ss.append(c.stmt_expr(c.asg("=", c.mk("var", v=p, ty="ptr"), c.mk("addr", a=c.var(tgt), ty="ptr"))))
+            if r.random() < 0.3:
+                ss.append(c.mk("if", a=c.bin(">", c.var(a), c.num(0)), b=c.block([c.stmt_expr(c.asg("=", c.mk("var", v=p, ty="ptr"), c.mk("addr", a=c.var(y if tgt == x else x), ty="ptr")))]), c=0))
+            if hidx:
+                ss.append(c.mk("call", a=0, b=c.mk("callx", v=hidx, ss=[c.mk("var", v=p, ty="ptr") if r.random() < 0.5 else c.mk("addr", a=c.var(tgt), ty="ptr"), c.var(a)], ty="void")))
+            else:
+                ss.append(c.stmt_expr(c.asg(r.choice(["=", "=", "+="]), c.mk("deref", a=c.mk("var", v=p, ty="ptr"), ty="int"),
+                                            c.var(a) if r.random() < 0.6 else c.num(9))))
+            ss.append(c.mk("if", a=c.bin("==", c.var(x), c.num(k)), b=c.block([c.stmt_expr(c.asg("=", c.var(y), c.bin("+", c.var(y), c.var(x))))]), c=0))
+            ss.append(c.mk("ret", a=c.bin("+", c.var(x), c.var(y))))
+        body = c.block(ss)
+        prog.funcs[0] = {"name": name, "ret": "int", "np": 1, "vars": c.vars, "body": body}
+        out.append(prog.to_json())
+    return out
